@@ -179,7 +179,7 @@ def min_edge(case):
 
 # ----------------------------------------------------------------------------- strategies
 
-ID_CLASSES = ["identity", "offset", "zero_based", "gaps", "perm", "arbitrary"]
+ID_CLASSES = ["identity", "perm", "offset", "gaps", "perm", "arbitrary", "zero_based", "perm", "arbitrary"]   # repeats = weights
 
 
 @st.composite
